@@ -258,6 +258,7 @@ func (e *Engine) runPath(w *Worker, prefix []Decision) {
 		stubs: map[*ssa.Function]*FuncV{}, stubUsed: map[string]bool{}, keepFn: map[*ssa.Function]bool{},
 		unwind: e.cfg.Unwind, symBranch: map[branchKey]int{}, funcs: map[string]bool{},
 	}
+	p.por = e.cfg.Params["por"] != 0
 	p.sched = &Scheduler{dead: make(chan struct{})}
 	p.doneCh = make(chan pathOutcome, 1)
 	if e.replayModel != nil {
